@@ -331,9 +331,8 @@ GLOBL PostAffineMatrix<>(SB), (NOPTR+RODATA), $8
 
 //load round key
 #define loadRoundKey(R, RK) \
-    MOVD    (R), X1 \
+    VPBROADCASTD  (R), RK \ // 4-byte load; latency is 3 for 256/512, 1 otherwise; CPI 1
     ADDQ    $4, R \ //TODO replace by offsets to R
-    VPBROADCASTD  X1, RK \ // latency is 3 for 256/512, 1 otherwise; CPI 1
 
 #define loadRoundKeyX(R) \
     loadRoundKey(R, VxRoundKey) \
